@@ -240,7 +240,7 @@ def runBlocking? (s : St) (t : Nat) : Option St :=
   else none
 
 def rxDrop? (s : St) (t : Nat) : Option St :=
-  if s.chan t = .pending then some { s with chan := upd s.chan t .closed } else none
+  if s.chan t ≠ .none && s.chan t ≠ .closed then some { s with chan := upd s.chan t .closed } else none
 
 def recv? (s : St) (w t : Nat) : Option St :=
   if decide (w < s.nw) && decide (s.main w = .idle) && s.queue.contains t then
@@ -248,9 +248,10 @@ def recv? (s : St) (w t : Nat) : Option St :=
                   main := if s.conc then s.main else upd s.main w (.awaiting t) }
   else none
 
-/-- the worker loop after the awaited task has ended -/
-def resume (s : St) (w t : Nat) : Nat → Main :=
-  if s.main w = .awaiting t then upd s.main w .idle else s.main
+/-- the worker loop after a task has ended: `wake` = the loop was awaiting this very task
+(a `Bool` argument, evaluated once: the compiled closure must not look `main w` up on every use) -/
+def resume (main : Nat → Main) (w : Nat) (wake : Bool) : Nat → Main :=
+  if wake then upd main w .idle else main
 
 def poll? (s : St) (w t : Nat) : Option St :=
   if decide (w < s.nw) && (s.main w).canPoll then
@@ -267,10 +268,10 @@ def poll? (s : St) (w t : Nat) : Option St :=
       if w' = w then
         match (s.body t).out with
         | .ok v => some { s with stat := upd s.stat t (.done w), chan := upd s.chan t ((s.chan t).send v),
-                                 main := resume s w t, ended := upd s.ended t (s.ended t + 1),
+                                 main := resume s.main w (decide (s.main w = .awaiting t)), ended := upd s.ended t (s.ended t + 1),
                                  sent := upd s.sent t (s.sent t + 1) }
         | .panic => some { s with stat := upd s.stat t (.done w), chan := upd s.chan t (s.chan t).cancel,
-                                  main := resume s w t, ended := upd s.ended t (s.ended t + 1) }
+                                  main := resume s.main w (decide (s.main w = .awaiting t)), ended := upd s.ended t (s.ended t + 1) }
         | .never => none
       else none
     | _ => none
